@@ -194,6 +194,17 @@ mut("c14-interrupted-propagated", ["C14"], "blocking reader propagates Interrupt
     [(RD, "                Err(e) if e.kind() == io::ErrorKind::Interrupted =>\n                    continue,\n", "")])
 mut("c14-writer-prefix-le", ["C14"], "blocking writer writes the length prefix little-endian",
     [(WRI, "let prefix = (self.buffer.len() as u32 - 4).to_be_bytes();", "let prefix = (self.buffer.len() as u32 - 4).to_le_bytes();")])
+mut("c14-writer-with-buffer-stale", ["C14"], "a Writer built with_buffer keeps the content its scratch buffer arrived with",
+    [("minicbor-io/src/writer.rs", "        self.buffer.resize(4, 0u8);\n", "        if self.buffer.len() < 4 { self.buffer.resize(4, 0u8) }\n")])
+mut("c14-reader-buffer-only-grows", ["C14"], "the blocking reader never shrinks its buffer: a short frame after a long one is decoded from a buffer with stale tail and the payload read swallows the next frame",
+    [("minicbor-io/src/reader.rs", "        self.buffer.clear();\n        self.buffer.resize(len, 0u8);\n", "        if self.buffer.len() < len { self.buffer.resize(len, 0u8) }\n")])
+mut("c01-vecdeque-slices-swapped", ["C01"], "VecDeque encoded from as_slices() in the wrong order (only visible when the ring buffer is wrapped)",
+    [(ENCRS, "    alloc::collections::VecDeque<T>\n    alloc::collections::LinkedList<T>", "    alloc::collections::LinkedList<T>"),
+     (ENCRS, "impl <C, T: Encode<C>, const N: usize> Encode<C> for [T; N] {", "#[cfg(feature = \"alloc\")]\nimpl<C, T: Encode<C>> Encode<C> for alloc::collections::VecDeque<T> {\n    fn encode<W: Write>(&self, e: &mut Encoder<W>, ctx: &mut C) -> Result<(), Error<W::Error>> {\n        let (a, b) = self.as_slices();\n        e.array(self.len() as u64)?;\n        for x in b.iter().chain(a) { x.encode(e, ctx)? }\n        Ok(())\n    }\n}\n#[cfg(feature = \"alloc\")]\nimpl<C, T: CborLen<C>> CborLen<C> for alloc::collections::VecDeque<T> {\n    fn cbor_len(&self, ctx: &mut C) -> usize { let n = self.len(); n.cbor_len(ctx) + self.iter().map(|x| x.cbor_len(ctx)).sum::<usize>() }\n}\n\nimpl <C, T: Encode<C>, const N: usize> Encode<C> for [T; N] {")])
+mut("c03-arrayiter-lower-bound-only", ["C03"], "ArrayIter trusts the lower bound of size_hint whenever there is no upper bound",
+    [(ENCRS, "        let (low, up) = iter.size_hint();\n        let exact = Some(low) == up;\n        if exact {\n            e.array(low as u64)?;", "        let (low, up) = iter.size_hint();\n        let exact = Some(low) == up || (up.is_none() && low > 0);\n        if exact {\n            e.array(low as u64)?;")])
+mut("c11-borrowed-tokenizer-no-drain", ["C11", "C02"], "a tokenizer that borrows its decoder is not drained on error",
+    [(TKZ, "                self.decoder.set_position(end); // drain decoder\n", "                if let Decoder::Owned(_) = self.decoder { self.decoder.set_position(end) }\n")])
 mut("c14-writer-maxlen-off-by-one", ["C14"], "blocking writer accepts a payload one byte above max_len",
     [(WRI, "        if self.buffer.len() - 4 > self.max_len {", "        if self.buffer.len() - 5 > self.max_len {")])
 
